@@ -11,7 +11,7 @@ class ScopeProgram:
         r = rng
         self.c = [r.randrange(1, 20) for _ in range(6)]
         # units: name -> (number of locals/params, may use field names?)
-        self.units = {"A": (2, True), "B": (2, False), "C": (1, False), "D": (2, True), "E": (3, True), "M": (3, True)}
+        self.units = {"A": (2, True), "B": (2, False), "C": (1, False), "D": (2, True), "E": (3, True), "M": (3, True), "F": (2, True)}
         self.colliding = {}
         for u, (k, fields_ok) in self.units.items():
             pool = [p for p in POOL if fields_ok or p not in FIELDS]
@@ -21,7 +21,7 @@ class ScopeProgram:
                 pool.sort(key=lambda p: 0 if p in FIELDS else 1)
             self.colliding[u] = pool[:k]
         self.fresh = {u: ["%s_%d_z" % (u.lower(), i) for i in range(k)] for u, (k, _f) in self.units.items()}
-        body = ["{ SG<P> gq = new SG<P>(); echo(gq.get()); }", "echo(SN.get());", "{M2}.setn({M0} + 1);", "echo({M0}); echo({M1});", "echo({M2}.addt({M1}));", "echo(helper({M2}, {M0}));",
+        body = ["echo(early({M0}));", "echo(early({M1}) + {M0});", "{ SG<P> gq = new SG<P>(); echo(gq.get()); }", "echo(SN.get());", "{M2}.setn({M0} + 1);", "echo({M0}); echo({M1});", "echo({M2}.addt({M1}));", "echo(helper({M2}, {M0}));",
                 "echo({M0} + {M1});", "echo({M2}.viaThis({M1}));", "{M0} = {M0} + 1;", "echo({M2}.n); echo({M2}.t);",
                 "{ P q = new P({M1}, {M0}); echo(q.addt(1)); }"]
         r.shuffle(body)
@@ -44,6 +44,7 @@ class ScopeProgram:
             "}",
             "class SG<T> { public static int k = %d; public static int w = k * 2 + 1; public static int v = w + k; public constructor() -> SG<T> = default; public function get() -> int { return w * 100 + v; } }" % c[4],
             "class SN { public static int x = %d; public static int k = x + 5; public constructor() -> SN = default; public static function get() -> int { return k * 3 + x; } }" % c[5],
+            "function early(int {F0}) -> int { for (int {F1} = 0; {F1} < 4; {F1} = {F1} + 1) { if ({F1} == 2) { return {F0} + {F1}; } } return 0; }",
             "function helper(P {E0}, int {E1}) -> int { int {E2} = {E1} + 2; {E0}.setn({E2}); { SG<SN> gs = new SG<SN>(); {E2} = {E2} + gs.get() - gs.get(); } return {E0}.addt({E1}) + {E2}; }",
             "function main() -> void {",
             "    int {M0} = %d; int {M1} = %d;" % (c[2], c[3]),
